@@ -51,11 +51,19 @@ func (c *ExecuteCtx) SetFieldResult(name string, value any) {
 	c.FieldCaches[name] = value
 }
 
+// chunkCacheKey is the key of FieldChunkKeyCaches for a field name and the first
+// key of a chunk. The length of the name comes first: a name may contain any
+// byte (`a-b`), so name + "-" + key alone would give the same key for the field
+// `a` with the chunk key "b-k1" and for the field `a-b` with the chunk key "k1".
+func chunkCacheKey(name string, key []byte) string {
+	return fmt.Sprintf("%d-%s-%s", len(name), name, string(key))
+}
+
 func (c *ExecuteCtx) GetChunkFieldResult(name string, key []byte) ([]any, bool) {
 	if !c.EnableCache {
 		return nil, false
 	}
-	ckey := fmt.Sprintf("%s-%s", name, string(key))
+	ckey := chunkCacheKey(name, key)
 	if chunk, have := c.FieldChunkKeyCaches[ckey]; have {
 		return chunk, true
 	}
@@ -81,7 +89,7 @@ func (c *ExecuteCtx) SetChunkFieldResult(name string, key []byte, chunk []any) {
 	if !c.EnableCache {
 		return
 	}
-	ckey := fmt.Sprintf("%s-%s", name, string(key))
+	ckey := chunkCacheKey(name, key)
 	if _, have := c.FieldChunkKeyCaches[ckey]; have {
 		return
 	}
